@@ -70,7 +70,8 @@ class Ngram(Adapter):
     name = "NgramVectorizer"
     configs = [dict(), dict(ngram_size=2), dict(ngram_size=2, ngram_behaviour="subgrams"), dict(min_occurrences=2),
                dict(ngram_size=2, mask_string="[M]", excluded_tokens={"b"}), dict(ngram_size=3, max_unique_tokens=4),
-               dict(excluded_tokens={"d"}, excluded_token_regex="c"), dict(ngram_size=2, excluded_tokens={"c"}, excluded_token_regex="d")]
+               dict(excluded_tokens={"d"}, excluded_token_regex="c"), dict(ngram_size=2, excluded_tokens={"c"}, excluded_token_regex="d"),
+               dict(ngram_size=3, ngram_behaviour="subgrams"), dict(ngram_size=4, ngram_behaviour="subgrams", min_occurrences=2)]
 
     def make(self):
         return _cls("vectorizers.ngram_vectorizer", "NgramVectorizer")(**user_objects(self, self.cfg))
